@@ -393,7 +393,7 @@ def known_class_modes(rng, base_len):
     for bad in ["123", b"12", 2.5]:
         out.append({"helper": "append_python", "callee": list(SINK), "args": [enc(TOKEN), enc(bad)], "pop_result": True})
         out.append({"helper": "callobj", "fdef": FDEF_INJ, "fname": FNAME, "compile": False, "cargs": [enc(bad)]})
-    for ix in (-2, -3, -base_len):
+    for ix in (-2, -3, -base_len, -base_len - 5):
         out.append({"helper": "insert_magic_int", "magic": 5, "index": ix})
     return out
 
